@@ -269,7 +269,9 @@ func buildEngineX(engine, ovDir, ovHash string, race bool) string {
 	// prune old binaries of this engine
 	ents, _ := filepath.Glob(filepath.Join(root, ".cache/bin", engine+".*"+suffix))
 	for _, e := range ents {
-		if e != bin && strings.HasSuffix(e, ".race.test") == race {
+		// (binaries of other trees are left alone while they are fresh: another check - against a
+		// snapshot, VERIF_REPO - may be using them right now)
+		if st, err := os.Stat(e); err == nil && e != bin && strings.HasSuffix(e, ".race.test") == race && time.Since(st.ModTime()) > 2*time.Hour {
 			os.Remove(e)
 		}
 	}
